@@ -6,25 +6,28 @@ CLAIMS = {'C06': {'text': "Every random draw in src/quansino is shown (who-may-c
                  '(seed None / 0 / k>0) shows the given seed reaches the bit generator unchanged; global/fresh generators, clock, pid and set-order dependence are excluded package-wide. Universal '
                  "over seeds and global-generator states because it is a fact about the code's shape, not a sample of runs. G4 also treats set algebra on key views and materialised sets as "
                  'hash-ordered iterables.',
-         'note': "Trusted: numpy Generator(PCG64(seed)) is deterministic; ASE/numpy arithmetic is reproducible. Not decided: 'different seeds give different trajectories'.",
+         'note': "Trusted: numpy Generator(PCG64(seed)) is deterministic; ASE/numpy arithmetic is reproducible. Not decided: 'different seeds give different trajectories'. Assertions in the analysed "
+                 'code are taken to hold (they are dropped from the normal form).',
          'technique': 'static who-may-call over resolved imports + receiver provenance dataflow + finite case analysis of the seed path'},
  'C08': {'text': 'Table agreement decided for every serializable class discovered by introspection of the parsed package (so classes added later are included): registered under its own name by a '
                  'module the relevant imports execute (S1), lookup bases admit what writers store (S2), emitted kwargs accepted by the constructor chain (S3), every constructor parameter / tunable / '
                  "driver setting emitted (S4), emitted value inverts the constructor's arithmetic (S5, sympy normal form), and an import-order simulation for every public module as first import (S6; "
                  "all ordered pairs in the thorough tier). S4 also rejects tunables written only under a condition (`if value != DEFAULT`) unless the class's own constructor chain provably leaves "
                  "the attribute at that constant. S5 live-copy: a serialised attribute must be the one the object's behaviour reads (a second, construction-time copy of a public tunable is "
-                 'reported).',
+                 'reported). S5 includes driver settings held in the context: the serialised value must read the slot the setting lives in.',
          'note': "Trusted: ASE's JSON encoder round-trips ndarray/Atoms/Cell; Python import semantics as modelled (module-level statements, partially initialised modules, submodule fallback). "
-                 'Callables and user-registered classes are outside. ForceBias/AdaptiveForceBias serialization gaps are listed known findings.',
+                 'Callables and user-registered classes are outside. ForceBias/AdaptiveForceBias serialization gaps are listed known findings. Assertions in the analysed code are taken to hold (they '
+                 'are dropped from the normal form).',
          'technique': 'abstract interpretation of to_dict chains into schemas + constructor-chain resolution + registry/lookup table comparison + import-order simulation'},
  'C07': {'text': "Structural necessary conditions of restart, each decided for every driver class: the function ASE's encoder executes (obj.todict()) is the most-derived to_dict (alias-vs-override "
                  'analysis), both ends exist, the file dictionary covers the constructor and the keys from_dict indexes, every context slot is emitted / a handle / per-trial scratch / recomputed '
                  'before the first step, from_dict restores generator state in place after construction plus attributes, context and move table, and every class name that can occur in the file '
                  'resolves. Failure of any one makes every restart of the affected configuration wrong or impossible. Rule T6: the restart writer keeps dictionary insertion order (ASE write_json, or '
                  "json.dump(s) with ASE's encoder and no key sorting by default) — the move table is rebuilt in file order and scheduled by position. T7: per-move state that from_dict re-derives "
-                 '(unique_labels) is produced at run time only by the function from_dict uses.',
+                 "(unique_labels) is produced at run time only by the function from_dict uses. T4 also requires that the value written under a context slot's key reads that slot and nothing else.",
          'note': 'Not decided: step-for-step equality of the resumed trajectory (behavioural), JSON number round trip (ASE encoder, trusted; its use of obj.todict() is validated against the '
-                 'installed ASE source on every run). ForceBias/AdaptiveForceBias restart is a listed known finding.',
+                 'installed ASE source on every run). ForceBias/AdaptiveForceBias restart is a listed known finding. Assertions in the analysed code are taken to hold (they are dropped from the '
+                 'normal form).',
          'technique': 'class-alias/override resolution + abstract interpretation of to_dict/from_dict + slot coverage tables'},
  'C15': {'text': 'Decided on the CFGs of the run loop: the observer guard (locals inlined) is equivalent to the stated schedule on an exhaustively enumerated bounded integer domain; all paths of '
                  'irun with the loop taken 0/1/2 times have exactly [yield step, increment, observers] per iteration with the bound fixed at entry; the start-up block is shown one-shot by '
@@ -33,21 +36,23 @@ CLAIMS = {'C06': {'text': "Every random draw in src/quansino is shown (who-may-c
                  'set-up) is reported under O2. O3: the header is written in the one-shot start-up block and nowhere else, before the step-0 observer call (order from the pre-order of the normal '
                  'form).',
          'note': 'Not decided: byte identity of output files across split runs (follows from O1–O3 together with C06 and C16). Guard equivalence is exhaustive only within interval∈[-7,7], '
-                 'step∈[0,20]; the predicate is piecewise in sign(interval) and step mod |interval|, which this domain covers for those intervals.',
+                 'step∈[0,20]; the predicate is piecewise in sign(interval) and step mod |interval|, which this domain covers for those intervals. Assertions in the analysed code are taken to hold '
+                 '(they are dropped from the normal form).',
          'technique': 'statement CFG path enumeration + dominance + bounded exhaustive predicate equivalence (checker-owned evaluator)'},
  'C16': {'text': 'Typestate analysis of the file-operation sequence of every observer call (all CFG paths; ASE writers summarised and validated against the installed source): flush after the last '
                  'write, one newline-terminated write per log row/header, append-only trajectory, restart rewrite from offset 0 with truncation, and an exhaustive enumeration of crash points (every '
                  'prefix of every op sequence) mapped to an abstract file state that must be allowed for that file kind.',
          'note': "Granularity is one file operation (a torn single write counts as 'partial'); OS-level durability (fsync) is not claimed by the property. The non-atomic restart rewrite (two crash "
-                 'points) is a listed known finding.',
+                 'points) is a listed known finding. Assertions in the analysed code are taken to hold (they are dropped from the normal form).',
          'technique': 'typestate over file-operation sequences on CFG paths + exhaustive crash-prefix enumeration'},
  'C09': {'text': 'Schedule shape decided on MonteCarlo.yield_moves/step/add_move: the due filter is equivalent to `step mod interval == 0` on an exhaustively enumerated bounded domain; every CFG '
                  'path yields exactly once per slot of range(max_cycles) and nothing iff no move is due; forced moves are repeat(due, minimum_count) placed by a choice without replacement sized to '
                  'the multiset; free slots are a fresh rng.choice over the due list with p = probability/Σprobability (value-numbered through the in-place division); the over-commit guard is '
                  'equivalent to Σ+new > max_cycles and dominates the table insertion; step() calls the selected move exactly once per yielded name. M5: the over-commitment test sums the minimum '
-                 'counts of ALL stored moves (public scheduler helpers are seen through).',
+                 "counts of ALL stored moves (public scheduler helpers are seen through). M1 accepts an explicit error before the slot loop only under 'more forced moves than cycles', where the slot "
+                 'draw itself would fail.',
          'note': "Trusted: numpy's choice semantics (distinct elements without replacement; weight-0 elements never drawn). Not decided: selection frequencies; move tables edited behind add_move's "
-                 'back (from_dict, direct attribute edits).',
+                 'back (from_dict, direct attribute edits). Assertions in the analysed code are taken to hold (they are dropped from the normal form).',
          'technique': 'CFG path enumeration + dataflow slicing/value numbering + bounded exhaustive predicate equivalence'},
  'C17': {'text': 'Bounded-exhaustive decision: the __add__/__mul__/__rmul__ bodies and the __init__ chains that assign composite_move_type are interpreted by a checker-owned interpreter over model '
                  'objects (instances, composites, class values, generic aliases, metaclass), and EVERY expression tree over + and *n with every parenthesisation up to 4 leaves (quick, ~10^4 trees) / '
@@ -56,7 +61,8 @@ CLAIMS = {'C06': {'text': "Every random draw in src/quansino is shown (who-may-c
                  'CompositeMove.__call__ in the checker-owned interpreter on stand-in children for every result vector up to three children (calls in order, once each, with the context; result = '
                  'any). A1 also demands that every operand (leaf or intermediate result) still holds the elements it held when it was used (in-place list += is modelled).',
          'note': 'Trusted: typing caches parameterised generic aliases (same parameters, same object) — either way both branches then build the plain composite. The reflected spelling n*x is only '
-                 'checked for classes that define __rmul__ (the property speaks of a*n). Exhaustive within the stated tree bound only.',
+                 'checked for classes that define __rmul__ (the property speaks of a*n). Exhaustive within the stated tree bound only. Assertions in the analysed code are taken to hold (they are '
+                 'dropped from the normal form).',
          'technique': 'finite abstract interpretation of dispatch code over kinds (checker-owned interpreter) + exhaustive bounded tree enumeration'},
  'C03': {'text': 'Path-sensitive effect/typestate analysis over an abstract heap: atoms components (positions, momenta, other per-atom arrays with atom count/order, cell, constraints), calculator '
                  'cache, context and move slots carry symbolic version terms (with an algebra for insert/delete/re-insert and cell rescaling; aliases of live storage distinguished from copies). '
@@ -66,7 +72,7 @@ CLAIMS = {'C06': {'text': "Every random draw in src/quansino is shown (who-may-c
                  'abstract paths.',
          'note': 'Trusted: ASE setter/getter/delete semantics (table validated against the installed ASE source each run); reinsert_atoms inverts deletion (C19); atoms appended in the current trial '
                  "are unconstrained. Not decided: bit equality of contents beyond 'restored from a copy of the pre-trial value'; user check_move callables that mutate atoms. Constraint loss on "
-                 'rejected deletion is a listed known finding.',
+                 'rejected deletion is a listed known finding. Assertions in the analysed code are taken to hold (they are dropped from the normal form).',
          'technique': 'path-sensitive effect/typestate analysis (abstract heap with version terms, alias vs copy), exhaustive over abstract paths of each scenario'},
  'C04': {'text': "Same path-sensitive abstract heap as C03, extended with the calculator: calc.results / calc.atoms are components and every energy read is interpreted with ASE's cache rule (hit iff "
                  'calc.atoms equals the live atoms on positions/cell/numbers, else results replaced and recomputed; validated against the installed ASE source). For every driver × move-table '
@@ -77,7 +83,8 @@ CLAIMS = {'C06': {'text': "Every random draw in src/quansino is shown (who-may-c
                  'LennardJones sources); whenever calc.atoms carries the live atom set that component must agree.',
          'note': "Trusted: ASE's Calculator.get_property/compare_atoms semantics as summarised (validated each run). Not decided: calculators with hidden internal state (neighbour lists), numbers of "
                  'force calls inside an integrator. One genuine defect found by this check was repaired (stale results after a vetoed Hamiltonian attempt inside a composite). The calculator left '
-                 'unusable by a rejected insertion/deletion under GrandCanonical (EMT/LJ neighbour lists; confirmed on the real code) is a listed known finding, one entry per scenario.',
+                 'unusable by a rejected insertion/deletion under GrandCanonical (EMT/LJ neighbour lists; confirmed on the real code) is a listed known finding, one entry per scenario. Assertions in '
+                 'the analysed code are taken to hold (they are dropped from the normal form).',
          'technique': 'path-sensitive effect/typestate analysis with a calculator-cache model, exhaustive over abstract paths of each scenario'},
  'C05': {'text': 'On the abstract heap of C03/C04, for every grand-canonical scenario (one or several label-bearing moves, composites built like m*2 — the same object twice —, a+b, one object under '
                  "two names): labels are symbolic per-atom arrays whose length (a linear form over insertion-segment sizes) must equal the atoms' after every accepted/rejected/failed trial on every "
@@ -86,7 +93,7 @@ CLAIMS = {'C06': {'text': "Every random draw in src/quansino is shown (who-may-c
                  'Rule B6: labels and the unique-label cache from which fresh labels are picked are written by set_labels only (who-may-write, private helpers of set_labels included). Label draws '
                  'are tokens with known distinctness (np.setdiff1d(all, taken)); np.unique over draws explores the coincidence case.',
          'note': 'Not decided: plain CompositeMoves of several exchange moves deleting sequentially (index invalidation), cross-level sharing of one move object between the table and a composite. '
-                 'Composite insertion giving several particles one label is a listed known finding.',
+                 'Composite insertion giving several particles one label is a listed known finding. Assertions in the analysed code are taken to hold (they are dropped from the normal form).',
          'technique': 'path-sensitive effect/typestate analysis with symbolic lengths/counts + finite case analysis + who-may-write on labels/unique_labels'},
  'C02': {'text': "Each criterion's evaluate() is value-numbered (grand-canonical loops unrolled for particle_delta = ±1, and ±2, ±3 in the thorough tier) into a sympy expression over dataflow "
                  'sources and ln A(implemented) is decided equal to the textbook ln A(reference) by symbolic normal form; a difference is only reported with a numeric witness point of the two '
@@ -94,10 +101,12 @@ CLAIMS = {'C06': {'text': "Every random draw in src/quansino is shown (who-may-c
                  'recognised and shown decision-neutral), the decision is the strict `u < A` with one draw from context.rng, parameters are read from the context at evaluation time and driver '
                  'property pairs forward to the slot they read. Universal over temperatures, energies, volumes, N, μ, stresses because it is an identity of closed forms. Rule N adds a who-may-write '
                  "check on the particle number the insertion/deletion rule reads: it is only ever advanced by the trial's particle_delta. The kinetic-energy reference of the Hamiltonian test (rule "
-                 'H) is decided on the abstract heap: when the integrator starts, the stored K0 is that of the momenta then present, on every path of the trial.',
+                 'H) is decided on the abstract heap: when the integrator starts, the stored K0 is that of the momenta then present, on every path of the trial. Rule E: on the abstract heap the '
+                 'energy E_old read by every formula is, at the start of the first trial and after every accepted / rejected / failed trial, the energy of the configuration the next trial starts '
+                 'from (a NaN or stale baseline is reported with the path). Public and static helpers of the criteria are seen through unless they keep state on the criterion.',
          'note': 'Decides identity over the reals, not floating-point rounding near A = 1. The strain tensor is opaque except that it must vanish for an undeformed cell. For the grand-canonical '
                  'clamp (exponent ≤ 700 before a finite prefactor multiplies it) decision-neutrality assumes the prefactor is a normal double (≥ 1e-300). Unrecognised source expressions end as '
-                 'analysis-error, not as a verdict.',
+                 'analysis-error, not as a verdict. Assertions in the analysed code are taken to hold (they are dropped from the normal form).',
          'technique': 'value numbering of straight-line code to sympy normal forms (formula identity) + shape-kind and upper-bound abstract interpretation + who-may-write on the particle counter'},
  'C13': {'text': 'ForceBias.step / calculate_gamma / get_zeta / calculate_trial_probability are value-numbered into sympy expressions over named sources and compared by normal form with the '
                  'reference closed forms: zeta ~ uniform(−1,1) on every definition and displacement = zeta·delta·(min M/M)^p applied unchanged through momenta/positions (hence the bound), gamma = '
@@ -105,16 +114,18 @@ CLAIMS = {'C06': {'text': "Every random draw in src/quansino is shown (who-may-c
                  "the CFG of step() (rejection loop taken 0/1/2 times) shows exactly one position update, after the loop, masked re-draws only and the exit condition 'all accepted'. Attributes "
                  'cached from other attributes or constructor parameters (derived-attribute resolver) are substituted by their definition and carry freshness obligations: every writer of a source '
                  'refreshes the cache, and a cache computed once in the constructor from a re-assignable public attribute is reported. Cached scaling factors are resolved through their definition '
-                 '(also through expression methods) with freshness obligations for every writer of a source attribute.',
+                 '(also through expression methods) with freshness obligations for every writer of a source attribute. Rule A counts completed steps: a path that raises before any position write is '
+                 'an explicit refusal, not an advance.',
          'note': 'Trusted: the rejection-sampling lemma (sampled law and termination with probability 1 follow from the density being in (0,1]). Differences are reported only with a numeric witness '
-                 'point of the two formulas; unrecognised sources end as analysis-error.',
+                 'point of the two formulas; unrecognised sources end as analysis-error. Assertions in the analysed code are taken to hold (they are dropped from the normal form).',
          'technique': 'value numbering to sympy normal forms + CFG path enumeration + derived-attribute (cache) resolution with freshness obligations'},
  'C18': {'text': 'Every update function found in AdaptiveForceBias.update_functions is translated to u(v, ref) and decided symbolically: u(0)=1, u(ref)=1/2 (inverse-function folding), lim u=0, '
                  'non-increasing in v by an abstract monotonicity domain (sums, sign-definite products, increasing elementary functions) cross-checked on a grid of the derivative formula; delta is '
                  'value-numbered to min+(max−min)·u (so delta ∈ [min,max] with the stated anchor values); fallbacks return reference_variance only for missing committee data; step() adapts delta '
                  'before the inherited step on every path. Update functions are read through caches (derived-attribute resolver) and module constants; a slope cached at construction from '
-                 'reference_variance is reported as stale-able.',
-         'note': 'Decided over the reals; floating-point saturation of tanh/exp is not claimed.',
+                 'reference_variance is reported as stale-able. R6: structural sign analysis shows that every scheme returns a non-negative variation coefficient (the update functions are maps of '
+                 '[0, ∞) only).',
+         'note': 'Decided over the reals; floating-point saturation of tanh/exp is not claimed. Assertions in the analysed code are taken to hold (they are dropped from the normal form).',
          'technique': 'sympy normal forms, limits and a structural monotonicity domain + dominance on the CFG + derived-attribute (cache) resolution with freshness obligations'},
  'C14': {'text': "The shipped integrator's loop body is value-numbered with a stateful summary of the Atoms API (positions/momenta as expressions, forces as an uninterpreted function of the current "
                  'positions) and shown equal, by normal form, to the velocity-Verlet map applied once and twice (the latter fixes the force reuse between iterations) and, in the constrained branch, '
@@ -123,7 +134,8 @@ CLAIMS = {'C06': {'text': "Every random draw in src/quansino is shown (who-may-c
                  'starts. MB[forced] decides the kinetic temperature of the momenta LEFT on the atoms (EK quadratic, constraint map linear and idempotent); a value returned by the refresh and '
                  'recorded by a caller must be EK of those momenta.',
          'note': "Reversibility and the O(dt²) energy error are the textbook theorem about this scheme (trusted), not measured. Not decided: 'up to rounding' clauses, statistics of the drawn "
-                 'momenta. Differences are reported with a witness under a concrete test force F(y)=sin y + y²/3.',
+                 'momenta. Differences are reported with a witness under a concrete test force F(y)=sin y + y²/3. Assertions in the analysed code are taken to hold (they are dropped from the normal '
+                 'form).',
          'technique': 'value numbering with a stateful API summary to sympy normal forms + path-sensitive abstract-heap ordering check'},
  'C10': {'text': "Each shipped operation's calculate() is value-numbered with every generator draw turned into a symbol carrying its (low, high) range: Box components are single uniform(−s, s) "
                  "draws; Ball/Sphere rows have squared norm r²/s² under sin²+cos²=1 with cosθ ~ U(−1,1), φ over one full period; Translation is U(0,1)³@cell minus the group's centroid; Rotation "
@@ -131,7 +143,8 @@ CLAIMS = {'C06': {'text': "Every random draw in src/quansino is shown (who-may-c
                  'against the installed ASE source) over a full period; deformation generators are symmetric by construction with symmetric uniform entries, traceless for Shape, scalar for '
                  'Isotropic, blended as G∘mask + 𝟙∘(¬mask); the composite is the axis-0 sum over one call per child.',
          'note': "Trusted lemmas: the (cosθ, φ) sampler is uniform on the sphere and symmetric under d→−d; expm of a symmetric matrix is SPD with inverse expm(−T); det expm(T) = exp(tr T); ASE's "
-                 "euler_rotate about 'COM' keeps the centre of mass. Not decided: uniformity in distribution, volume preservation to rounding, symmetry under a non-default mask.",
+                 "euler_rotate about 'COM' keeps the centre of mass. Not decided: uniformity in distribution, volume preservation to rounding, symmetry under a non-default mask. Assertions in the "
+                 'analysed code are taken to hold (they are dropped from the normal form).',
          'technique': 'value numbering to sympy normal forms with range-carrying draw symbols + unit/shape rules validated against the ASE source'},
  'C11': {'text': 'Dataflow and CFG rules on the displacement moves: the array handed to set_positions is sliced back to (live positions) + a fresh zero array of shape (len(atoms),3) whose single '
                  'store is at the moving indices with one operation result; moving indices are where(labels == chosen); the chosen label is drawn from unique_labels, whose only writer (who-may-write '
@@ -140,7 +153,8 @@ CLAIMS = {'C06': {'text': "Every random draw in src/quansino is shown (who-may-c
                  'also accepts a reused translation buffer when an exit typestate shows it all-zero on every exit; D6: every +/* combination of displacement moves builds the specialised composite '
                  "(C17's interpreter).",
          'note': 'Not decided: constraints that move other atoms (excepted by the statement itself), vetoes by user check_move. Rules read the normalised form (private helpers inlined, guards '
-                 "structured); a rewrite outside the normaliser's reach ends as analysis-error or a reported deviation with the offending statement.",
+                 "structured); a rewrite outside the normaliser's reach ends as analysis-error or a reported deviation with the offending statement. Assertions in the analysed code are taken to hold "
+                 '(they are dropped from the normal form).',
          'technique': 'normalised form (helper inlining) + row-scatter tracking of the translation array + who-may-write scan + exhaustive evaluation of the selection/registration control skeleton '
                       'over its finite case space + abstract-heap retry rule'},
  'C12': {'text': 'Routing clause decided on the abstract heap: every write to positions/momenta/cell of the live atoms on every abstract path of every driver × move scenario is either a '
@@ -151,7 +165,8 @@ CLAIMS = {'C06': {'text': "Every random draw in src/quansino is shown (who-may-c
                  'Atoms methods that write positions without adjust_positions (the list is computed from the installed ASE source: translate, rotate, euler_rotate, center, wrap, '
                  'set_scaled_positions): none may be called on live atoms.',
          'note': "Not decided: the FixRot clause (zero angular momentum to rounding involves an eigendecomposition — a numerical identity outside this family) and that ASE's own constraints do what "
-                 "they promise (trusted; the setters' constraint handling is validated against the installed ASE source each run).",
+                 "they promise (trusted; the setters' constraint handling is validated against the installed ASE source each run). Assertions in the analysed code are taken to hold (they are dropped "
+                 'from the normal form).',
          'technique': 'effect classification on the abstract heap (who-may-write) + package-wide writer scan + value numbering'},
  'C19': {'text': 'reinsert_atoms is checked for the scatter/gather shape that makes it the inverse of deletion for any index set in any order (every existing array iterated; length '
                  'len(atoms)+len(new); trailing shape of the source; dtype of the existing array; kept rows under the complement mask and re-inserted rows under the indices, in order; arrays only '
@@ -160,7 +175,7 @@ CLAIMS = {'C06': {'text': "Every random draw in src/quansino is shown (who-may-c
                  'enumerate(connected components) of the neighbour-list connectivity without self-interaction. R2 additionally requires a connectivity matrix that is fresh per call (no cached '
                  'helper) and accepts the direct graph idiom; the row tracker knows both mask idioms (ones/False, zeros/True).',
          'note': "Trusted: numpy mask/index scatter semantics, ASE's neighbour list, networkx's connected components. Rules read the normalised form of the two functions; a rewrite outside the "
-                 "normaliser's reach ends as analysis-error (exit 2), not as a violation.",
+                 "normaliser's reach ends as analysis-error (exit 2), not as a violation. Assertions in the analysed code are taken to hold (they are dropped from the normal form).",
          'technique': 'normalised form (helper inlining) + flow-sensitive row-scatter tracking (fresh array, complement mask) + finite case analysis + exhaustive evaluation of the size window on a '
                       'bounded domain'},
  'C20': {'text': 'Who-may-access analysis with the protocol surface read from protocols.py on every run: in quansino.mc.* and quansino.utils.moves the expressions denoting user move/criteria objects '
@@ -168,7 +183,8 @@ CLAIMS = {'C06': {'text': "Every random draw in src/quansino is shown (who-may-c
                  'of Move ∪ Serializable resp. Criteria ∪ Serializable; isinstance tests on the move are confined to the default-criteria lookup; MonteCarlo.step routes a truthy result to '
                  'criteria.evaluate then save/revert and records a falsy one as None without evaluating; every driver whose context can change atom count / cell notifies stored moves on its accept '
                  'path; the simulation dictionary reaches move.to_dict()/criteria.to_dict(). P1 tracks collections of user objects (generators of storage.move, Iterable[MoveType] parameters, '
-                 "accumulating lists, the generic composite's children): value comparison / membership on them calls __eq__, which is outside the protocol.",
+                 "accumulating lists, the generic composite's children): value comparison / membership on them calls __eq__, which is outside the protocol. P1 also reports truth-value / length tests "
+                 '(`if x`, `not x`, bool(x), len(x)) on objects given to add_move or held by the move table: they call __bool__/__len__, which a conforming object may define.',
          'note': "Decides the drivers' own code; behaviour inside user objects is out of scope. The pyright compile-fail witness pair sketched in DESIGN.md was not built (the structural rules decide "
-                 'the clauses directly).',
+                 'the clauses directly). Assertions in the analysed code are taken to hold (they are dropped from the normal form).',
          'technique': "who-may-access (R-OWNER) dataflow over user-object expressions + exhaustive evaluation of the step loop's routing skeleton over (moved, verdict)"}}
